@@ -159,7 +159,8 @@ def run_case(ctx, desc):
         ctx.case(f"{tag}/{desc['target']}/k{'0' if k == 0 else 'T' if k == T else 'mid'}/delay{desc['delay']}/{'ip' if desc['inplace'] else 'oop'}")
         ctx.count("checkpoint_positions_checked")
         try:
-            lazy = desc["trainer"] != "none" or desc["reducer"] != "none"
+            # RecurrentSerial creates its feedback-spike buffer on the first step, like the lazily shaped recorders
+            lazy = desc["trainer"] != "none" or desc["reducer"] != "none" or desc["kind"] == "recurrent"
             if k == 0 and lazy:
                 # a never-run source has unshaped lazily-initialised recorders: nothing to transfer yet
                 ctx.count("k0_with_lazy_recorders_skipped")
